@@ -232,7 +232,16 @@ def check(tier, seed):
     if camp.mismatches:
         broken.append(dict(kind='correspondence', stream='real solver vs NdeVerif.Solver', count=len(camp.mismatches), first=camp.mismatches[:2]))
     bad = evaluate(camp) + direct_checks()
+    from ..solverprop import manual_campaign
+    okm, _ = kernel_phase(rep, 'NdeVerif.Proofs.AnyHistory', 'NdeVerif.AnyHistory', ['inv_any_history', 'series_lengths_any_history', 'any_history_from_init'], tag='C15any')
+    if not okm:
+        broken.append(dict(kind='proof', failed=rep.failed))
+    man = manual_campaign(tier, seed + 1)
+    if man['mismatches']:
+        broken.append(dict(kind='correspondence', stream='hand-run epochs mixed with fit() vs NdeVerif.Solver', count=len(man['mismatches']), first=man['mismatches'][:2]))
+    bad += [b for b in man['bad'] if 'metric series' in b['violated']]
     rep.coverage.update(camp.coverage())
+    rep.coverage['hand_run_epoch_histories'] = dict(scripts=man['scripts'], manual_epochs=man['manual_epochs'], mismatches=len(man['mismatches']))
     rep.samples = [dict(script=l, solver=kw) for l, kw in camp.scripts[:3]]
     rep.assumptions = ['n_batches_train >= 1 in every epoch (the property\'s quantifier); with n_batches_train = 0 the real code records nothing for that epoch',
                        'metric value of a batch under a closure-based optimiser = value at the last closure evaluation (as for the loss)',
